@@ -27,10 +27,10 @@ def check(ctx):
 
 
 MANIFEST = {
-    "technique": "static analysis: guard-liveness dataflow on MIR + call-graph 'touches' sets (lock discipline), method whitelist, panic-site discharge",
+    "technique": "static analysis: guard-liveness dataflow on MIR + call-graph 'touches' sets (lock discipline), method whitelist, guard-escape rule on public signatures, order-sensitive consumers of hash iteration, panic-site discharge",
     "level": "Decides 'never deadlocks, never panics, never returns a partially built answer' for all schedules: self-deadlock and lock-order "
     "cycles are the only ways a DashMap user deadlocks, and both are excluded structurally on every path of every function that holds a guard; "
     "cached vectors are inserted complete and never mutated or removed (K3/K4), which also discharges the two .expect(\"Cached value\") sites. "
-    "Tests run one thread and one history; this argument does not depend on the schedule.",
+    "K6 reports the two public functions that return a live shard guard (known finding F28: a caller holding one across its next query blocks on itself); R-DET excludes answers that depend on the iteration order of a randomly seeded hash container. Tests run one thread and one history; this argument does not depend on the schedule.",
     "note": "Partial claim: value-equality of answers across histories is a runtime fact and is not decided. Trusted: A4 (dashmap's documented locking), rustc MIR.",
 }
